@@ -37,7 +37,7 @@ for p in ["C%02d"%i for i in range(1,21)]:
         if os.path.exists(mp):
             old=json.load(open(mp)).get('checks',{}).get('history','')
             if old.startswith('missed') and r.get('caught'):
-                first='missed by the checks as they stood before the round; reported after strengthening (DESIGN.md 9.6)'
+                first='missed by the checks as they stood before the round; reported after strengthening (DESIGN.md 9)'
             elif old: first=old
         meta['checks']['history']=first
         json.dump(meta,open(mp,'w'),indent=1)
